@@ -10,5 +10,6 @@ INVARIANT HeadersCoverKeys
 INVARIANT DemandsTotal
 INVARIANT ListKeysDecide
 INVARIANT ValidShapesParse
+INVARIANT SelectionsSimulated
 INVARIANT Emit
 CHECK_DEADLOCK FALSE
